@@ -55,6 +55,12 @@ def cases(tier, seed, ctx=None):
                         continue
                     ops = [START] + ([TURN, FEED(c[:2]), TURN, FEED(c[2:]), FINISH, TURN] if seqf else [TURN] * (n + 3))
                     yield ("copier", [c, seqf, 2, 0 if seqf else frm, -1 if seqf else to, fl, ops, [14, 3]], "failing")
+    # sequential source whose data is all there before start() and whose end comes before the copier's first turn, destination that
+    # fails: the failing write is the final flush
+    for n in (1, 4, 9):
+        c = content(n)
+        for ops in ([FEED(c), START, FINISH, TURN], [FEED(c[:1]), START, FEED(c[1:]), FINISH, TURN], [START, FEED(c), FINISH, TURN, TURN], [FEED(c), START, FINISH]):
+            yield ("copier", [c, 1, 3, 0, -1, [0, 0, 0, 0, 1], ops, [14, 3]], "seq-final-flush-fails")
     # multi-block contents
     for n in (40, 255, 256, 257, 1000):
         c = content(n)
